@@ -122,6 +122,29 @@ theorem plain_decoded (lp : Nat → Option Nat) (p : Nat) (i : Insn) (hwt : wt i
     · cases h
       refine .single (.ret idx) (by simp [u16b]) (fun rest => ?_) (by simp [denote1])
       simp [u16b, decodeOne_ret_wide, u16_u16b idx hwt]
+  | cp op idx =>
+    simp only [encInsn] at h; cases h
+    simp only [wt, Bool.and_eq_true, decide_eq_true_eq] at hwt
+    refine .single (.cp op idx) (by simp [u16b]) (fun rest => ?_) (by simp [denote1])
+    simp [u16b, decodeOne_cp hwt.1, u16_u16b idx hwt.2]
+  | invokeinterface idx desc =>
+    simp only [encInsn] at h
+    simp only [wt, decide_eq_true_eq] at hwt
+    cases ha : argsSize desc with
+    | error e => simp [ha] at h
+    | ok c =>
+      simp only [ha, Except.ok.injEq, Prod.mk.injEq, and_true] at h
+      subst h
+      refine .single (.invokeinterface idx c) (by simp [u16b]) (fun rest => ?_) (by simp [denote1, ha])
+      simp [u16b, decodeOne_invokeinterface, u16_u16b idx hwt]
+  | newarray t =>
+    simp only [encInsn] at h; cases h
+    exact .single (.newarray t) (by simp) (fun rest => by simp [decodeOne_newarray]) (by simp [denote1])
+  | multianewarray idx d =>
+    simp only [encInsn] at h; cases h
+    simp only [wt, Bool.and_eq_true, decide_eq_true_eq] at hwt
+    refine .single (.multianewarray idx d) (by simp [u16b]) (fun rest => ?_) (by simp [denote1])
+    simp [u16b, decodeOne_multianewarray, u16_u16b idx hwt.1]
   | ifc c t => simp [plainInsn] at hnl
   | goto t => simp [plainInsn] at hnl
   | jsr t => simp [plainInsn] at hnl
